@@ -27,6 +27,7 @@ import (
 	"verifharness/plan"
 	"verifharness/sim"
 	"verifharness/tape"
+	"verifharness/wasmb"
 )
 
 type c13 struct{}
@@ -65,6 +66,7 @@ func (c13) Property() string { return "C13" }
 func (c13) Classes() []sim.Class {
 	return []sim.Class{
 		{Name: "crash-points", Engine: "compiler", Quick: 48, Thorough: 320, Instrumented: true, RunTimeoutSec: 300, Batch: 1},
+		{Name: "write-faults", Engine: "compiler", Quick: 32, Thorough: 400, Instrumented: true, RunTimeoutSec: 300, Batch: 1},
 		{Name: "truncation", Engine: "compiler", Quick: 32, Thorough: 600, Instrumented: true, RunTimeoutSec: 300, Batch: 1},
 		{Name: "read-faults", Engine: "compiler", Quick: 32, Thorough: 600, Instrumented: true, RunTimeoutSec: 300, Batch: 1},
 		{Name: "concurrent-writers", Engine: "compiler", Quick: 160, Thorough: 6000, Instrumented: true, RunTimeoutSec: 300},
@@ -82,7 +84,7 @@ func (c13) Describe() sim.Description {
 		RealCode:    []string{"internal/filecache (file_cache.go)", "cache.go", "wazevo engine_cache.go serialize/deserialize and stale handling", "the optimizing compiler", "runtime.go CompileModule/InstantiateModule"},
 		Stubs:       []string{"package os as seen by internal/filecache/file_cache.go and cache.go = verifshim/simos (in-memory disk with volatile/durable layers)"},
 		Assumptions: []string{"the sim-disk is a conservative model of POSIX persistence (anything not synced may be lost; metadata and data unordered), not of a specific file system", "interpreter has no file cache: compiler only"},
-		FaultKinds:  []string{"crash_before_syscall", "crash_inside_write", "power_loss_unsynced_data", "power_loss_directory_op_lost", "truncated_entry", "foreign_version_entry", "short_read", "read_eio", "concurrent_writer"},
+		FaultKinds:  []string{"crash_before_syscall", "crash_inside_write", "power_loss_unsynced_data", "power_loss_directory_op_lost", "transient_write_error", "truncated_entry", "foreign_version_entry", "short_read", "read_eio", "concurrent_writer"},
 	}
 }
 
@@ -246,6 +248,14 @@ func (c13) Run(t *tape.Tape, cfg sim.Config) (res sim.Result) {
 	defer func() { simos.Current = nil }()
 	p := genPlan(t)
 	bin := p.Encode()
+	if cfg.Class == "truncation" && cfg.Run%8 == 1 {
+		// a module without any function of its own (a memory, a global, exports): its entry has no code
+		nm := &wasmb.Module{Mem: &wasmb.Limits{Min: 1}}
+		nm.Globals = []wasmb.Global{{Type: wasmb.I32, Mut: true, Init: wasmb.ConstI32(int32(cfg.Run))}}
+		nm.Exports = append(nm.Exports, wasmb.Export{Name: "g", Kind: wasmb.KindGlobal, Idx: 0}, wasmb.Export{Name: "mem", Kind: wasmb.KindMemory, Idx: 0})
+		bin, p = nm.Encode(), nil
+		res.Stat("probe.entries_of_modules_without_functions", 1)
+	}
 	if cfg.Class == "truncation" && cfg.Run%3 == 2 {
 		if b := dwarfBinary(int(cfg.Run / 3)); b != nil {
 			bin, p = b, nil
@@ -279,6 +289,8 @@ func (c13) Run(t *tape.Tape, cfg sim.Config) (res sim.Result) {
 	switch cfg.Class {
 	case "crash-points":
 		crashPoints(t, cfg, &res, p, bin, refPath, ref, log)
+	case "write-faults":
+		writeFaults(t, cfg, &res, p, bin, refPath, ref, log)
 	case "truncation":
 		truncation(t, cfg, &res, p, bin, refPath, ref)
 	case "read-faults":
@@ -458,6 +470,59 @@ func crashPoints(t *tape.Tape, cfg sim.Config, res *sim.Result, p *plan.Plan, bi
 	res.Logf("%d crash points enumerated, %d inside the add operation", len(pts), inside)
 }
 
+// writeFaults: every mutating syscall of the add operation fails ONCE (a Write after 0, some or all but one
+// of its bytes with ENOSPC; Sync and Rename with EIO) while the process lives on: the disk was full or
+// hiccuped for a moment.  CompileModule may fail or succeed; whatever it returns, the final name must hold
+// nothing or the complete entry, and a later CompileModule on the same directory (faults over) must succeed
+// and run correctly.
+func writeFaults(t *tape.Tape, cfg sim.Config, res *sim.Result, p *plan.Plan, bin []byte, refPath string, ref []byte, log []simos.Syscall) {
+	type fp struct{ at, byte int }
+	var pts []fp
+	for i, s := range log {
+		switch s.Op {
+		case "Write":
+			for _, k := range []int{0, 1, 40, s.N / 2, s.N - 1} {
+				if k >= 0 && k < s.N {
+					pts = append(pts, fp{i, k})
+				}
+			}
+		case "Sync", "Rename":
+			pts = append(pts, fp{i, -1})
+		}
+	}
+	fired := 0
+	for _, pt := range pts {
+		d := simos.NewDisk()
+		simos.Current = d
+		w, err := newWorld()
+		if err != nil {
+			panic(err)
+		}
+		d.Arm()
+		d.ErrAt, d.ErrByte = pt.at, pt.byte
+		_, cerr, crashed, _, pan := compileGuarded(w, bin)
+		simos.Current = nil
+		if pan != nil || crashed {
+			res.Fail("writer-panic", "write fault (%d,%d): CompileModule panicked with %v", pt.at, pt.byte, pan)
+			return
+		}
+		if d.ErrFired == "" {
+			res.Fail("crash-point-not-reached", "write fault (%d,%d): the add operation made fewer syscalls than in the reference run (err=%v)", pt.at, pt.byte, cerr)
+			return
+		}
+		fired++
+		res.Stat("fault.transient_write_error", 1)
+		what := fmt.Sprintf("transient error at %s (after %d bytes), CompileModule returned error=%v", d.ErrFired, pt.byte, cerr != nil)
+		w.close()
+		if !restartCheck(res, what, d, p, bin, refPath, ref) {
+			return
+		}
+		res.Steps++
+	}
+	res.Nontrivial = fired > 0
+	res.Logf("%d transient write faults enumerated", fired)
+}
+
 func truncation(t *tape.Tape, cfg sim.Config, res *sim.Result, p *plan.Plan, bin []byte, refPath string, ref []byte) {
 	lens := map[int]bool{}
 	if cfg.Tier == "thorough" {
@@ -624,6 +689,19 @@ func concurrent(t *tape.Tape, cfg sim.Config, res *sim.Result, p *plan.Plan, bin
 			d.CrashByte = t.Choose(len(ref))
 		}
 	}
+	// in half of the runs the second writer compiles a DIFFERENT module: each key must end up with ITS
+	// module's entry
+	bin2, p2, refPath2, ref2 := bin, p, refPath, ref
+	if t.Chance(1, 2) {
+		p2 = genPlan(t)
+		bin2 = p2.Encode()
+		var err error
+		if refPath2, ref2, _, err = reference(bin2); err != nil {
+			panic(fmt.Sprintf("harness: reference compile of the second module failed: %v", err))
+		}
+		simos.Current = d
+		res.Stat("probe.concurrent_writers_of_different_modules", 1)
+	}
 	var errs [2]error
 	var crashed [2]bool
 	var pans [2]any
@@ -635,7 +713,7 @@ func concurrent(t *tape.Tape, cfg sim.Config, res *sim.Result, p *plan.Plan, bin
 	}
 	s := simrt.Run(choose, 100000, false,
 		func() { _, errs[0], crashed[0], _, pans[0] = compileGuarded(w1, bin) },
-		func() { _, errs[1], crashed[1], _, pans[1] = compileGuarded(w2, bin) },
+		func() { _, errs[1], crashed[1], _, pans[1] = compileGuarded(w2, bin2) },
 	)
 	simos.Current = nil
 	res.Stat("probe.task_switches", int64(s.Switches))
@@ -662,6 +740,11 @@ func concurrent(t *tape.Tape, cfg sim.Config, res *sim.Result, p *plan.Plan, bin
 	}
 	if !restartCheck(res, what+" / power loss", d.AfterPowerLoss(func(n int) int { return t.Choose(n) }), p, bin, refPath, ref) {
 		return
+	}
+	if refPath2 != refPath {
+		if !restartCheck(res, what+" / second module / process death", d.AfterProcessDeath(), p2, bin2, refPath2, ref2) {
+			return
+		}
 	}
 	res.Nontrivial = s.Switches > 0
 	res.Shape = sim.ShapeOf(res.Shape, fmt.Sprint(s.Switches, crash, d.CrashAt))
